@@ -463,3 +463,65 @@ Proof.
   - intros X. discriminate X.
   - vm_compute. reflexivity.
 Qed.
+
+(* ------------------------------------------------------------------------------------------------
+   Tie to the code, wave 2 (Gen/Fns.v is regenerated from header.rs on every run by tools/gen_fns.py; see
+   design.d/GEN.md): the header model of this property -- field reads, geometry / region-count validation, the
+   layout arithmetic of finalize, the slot readers and the slot selection of recovery -- is equal to the
+   functions translated from UnrepairedDatabaseHeader::from_bytes / layout_from_file_len / select_primary_slot,
+   DatabaseHeader::layout and TransactionHeader::from_bytes. *)
+From RV Require Import Gen.FnsLib Gen.FnsLibB Gen.Fns Gen.FnsHeaderP.
+
+Theorem c01_code_header_reads_are_model : forall b : bytes, (DB_HEADER_SIZE <= slen b)%N ->
+  page_size_of (hget b) = header_page_size b
+  /\ rhp_of (hget b) = header_region_header_pages b
+  /\ rmp_of (hget b) = header_region_max_data_pages b
+  /\ full_regions_of (hget b) = header_full_regions b
+  /\ trailing_of (hget b) = header_trailing_data_pages b
+  /\ flag (god (hget b)) PRIMARY_BIT = negb (header_primary_slot b =? 0)%N
+  /\ flag (god (hget b)) RECOVERY_REQUIRED = header_recovery_required b
+  /\ flag (god (hget b)) TWO_PHASE_COMMIT = header_two_phase_commit b
+  /\ slot_at (hget b) false = header_slot0_bytes b
+  /\ slot_at (hget b) true = header_slot1_bytes b.
+Proof. exact header_reads_are_model. Qed.
+
+Theorem c01_code_geometry_checks_is_model : forall ps g,
+  geom_ok ps g = isSome (header_geometry_checks (page_size_of g) ps (rmp_of g) (rhp_of g)).
+Proof. exact geometry_checks_is_model. Qed.
+
+Theorem c01_code_stored_counts_checks_is_model : forall g,
+  stored_sane g = isSome (header_stored_counts_checks (trailing_of g) (rmp_of g) (full_regions_of g)).
+Proof. exact stored_counts_checks_is_model. Qed.
+
+Theorem c01_code_layout_from_file_len_is_model : forall ps rhp rmp len, (0 < (rhp + rmp) * ps)%N ->
+  len_valid ps rhp rmp len = isSome (UnrepairedDatabaseHeader_layout_from_file_len ps rhp rmp len).
+Proof. exact len_valid_is_model. Qed.
+
+Theorem c01_code_header_layout_len_is_model : forall g, stored_sane g = true ->
+  stored_len g = DatabaseLayout_len (DatabaseHeader_layout (rmp_of g) (rhp_of g) (page_size_of g)
+                                       (trailing_of g) (full_regions_of g))
+  /\ DatabaseLayout_len_guard (DatabaseHeader_layout (rmp_of g) (rhp_of g) (page_size_of g)
+                                 (trailing_of g) (full_regions_of g)) = true.
+Proof. exact stored_len_is_model. Qed.
+
+Theorem c01_code_slot_version_is_model : forall s, Header.slot_version s = Fns.slot_version s.
+Proof. exact slot_version_is_model. Qed.
+
+Theorem c01_code_slot_transaction_id_is_model : forall s, Header.slot_txid s = Fns.slot_transaction_id s.
+Proof. exact slot_txid_is_model. Qed.
+
+Theorem c01_code_slot_checksum_split_is_model : forall s : bytes, slen s = TRANSACTION_SIZE ->
+  firstn CKS_OFF s = slot_checksummed_bytes s /\ le_decode (skipn CKS_OFF s) = slot_stored_checksum s.
+Proof. exact slot_checksum_split_is_model. Qed.
+
+Theorem c01_code_select_primary_slot_is_model : forall (H : bytes -> bytes) gb s0 s1 verf,
+  let prim := if flag gb PRIMARY_BIT then s1 else s0 in
+  let sec := if flag gb PRIMARY_BIT then s0 else s1 in
+  select H gb s0 s1 verf =
+  match UnrepairedDatabaseHeader_select_primary_slot (flag gb TWO_PHASE_COMMIT) (negb (cks_ok H prim))
+          (negb (cks_ok H sec)) (slot_txid prim) (slot_txid sec) with
+  | None => None
+  | Some true => if flag gb TWO_PHASE_COMMIT then (if verf prim then Some prim else None) else try2 verf prim sec
+  | Some false => try2 verf sec prim
+  end.
+Proof. exact select_primary_slot_is_model. Qed.
